@@ -89,6 +89,7 @@ struct WorldQ : World {
   void driver() override;
   void finish() override;
   void on_event(const Event &e) override;
+  void on_idle(int64_t from, int64_t to) override;
 
   // helpers
   std::string qp(const std::string &dir, uint64_t n, bool splitdir) const;
